@@ -274,7 +274,7 @@ package reflect
 // layout overlays that are only ever placed over raw memory
 //@ const rawtypes = sliceHeader rvtype hmap iface hackMapIter
 // runtime/reflect structs whose fields verified code never touches: one opaque word each
-//@ const opaquetypes = mapIter reflect.Value sync.Pool
+//@ const opaquetypes = mapIter reflect.Value sync.Pool atomic.Pointer
 //@ const MAXIN = 1099511627776
 //@ const MAXALLOC = 288230376151711744
 
@@ -561,14 +561,55 @@ package reflect
 // A-REFLECT: sizes seen through a Value are the sizes of its type
 //@ axiom rv_sizes: forall v reflect.Value :: {rvType(v)} rvKind(v) != reflect.Invalid ==> rvType(v) != nil && rtKind(rvType(v)) == rvKind(v) && rvSize(v) == rtSize(rvType(v)) && (rvKind(v) == reflect.Ptr ==> rvPointeeSize(v) == rtSize(rtElem(rvType(v))))
 
-// sds (descmap.go): abstract view $sds[k] = descriptor registered for abi type k (Get/Set assumed: A-SDS)
+// sds (descmap.go): abstract view $sds[k] = descriptor registered for abi type k; Get/Set are proved against it
 //@ const ghost $sds = (Array Int Int)
-//@ trusted func reflect.(*mapStructDesc).Get(m *mapStructDesc, abiType uintptr) (sd *structDesc)
-//@   ensures sd == $sds[abiType]
-//@ trusted func reflect.(*mapStructDesc).Set(m *mapStructDesc, abiType uintptr, sd *structDesc)
-//@   modifies $sds
-//@   ensures $sds == store(old($sds), abiType, sd)
-//@ macro sdsinv = $sds[0] == 0 && (forall k Int :: {$sds[k]} $sds[k] != 0 ==> goodSD($sds[k], structT(typeOfAbi(k))) && structish(typeOfAbi(k)))
+// --- descmap.go: lock-free read map against the abstract view $sds ---------
+// slots[b] holds a pointer to an immutable slice of (abi type, descriptor) items for the keys
+// k with k % 65536 == b; Set replaces the slice (copy on write). Representation invariant:
+// every item is in its key's bucket and agrees with the view $sds, keys are distinct within a
+// bucket, every key of the view is present, and everything reachable already exists (< $brk).
+//@ spec func slotp(m *mapStructDesc, b Int) Int = sel(heap("P.aptr"), ix(m, b, 8))
+//@ spec func slotn(m *mapStructDesc, b Int) Int = len(sel(heap("*[]mapStructDescItem"), slotp(m, b)))
+//@ spec func itemAt(m *mapStructDesc, b Int, i Int) Int = ix(sel(heap("*[]mapStructDescItem"), slotp(m, b)).ptr, i, 16)
+//@ spec func itAbi(m *mapStructDesc, b Int, i Int) Int = sel(heap("mapStructDescItem.abiType"), itemAt(m, b, i))
+//@ spec func itSd(m *mapStructDesc, b Int, i Int) Int = sel(heap("mapStructDescItem.sd"), itemAt(m, b, i))
+//@ macro sdsR1 = forall b Int, i Int :: {itAbi(m, b, i)} 0 <= b && b <= 65535 && slotp(m, b) != 0 && 0 <= i && i < slotn(m, b) ==> itAbi(m, b, i) % 65536 == b && $sds[itAbi(m, b, i)] == itSd(m, b, i)
+//@ const ghost $sdsidx = (Array Int Int)
+//@ macro sdsR2 = forall k Int :: {$sds[k]} 0 <= k && $sds[k] != 0 ==> slotp(m, k % 65536) != 0 && 0 <= $sdsidx[k] && $sdsidx[k] < slotn(m, k % 65536) && itAbi(m, k % 65536, $sdsidx[k]) == k
+//@ macro sdsR3 = forall b Int, i Int, j Int :: {itAbi(m, b, i), itAbi(m, b, j)} 0 <= b && b <= 65535 && slotp(m, b) != 0 && 0 <= i && i < j && j < slotn(m, b) ==> itAbi(m, b, i) != itAbi(m, b, j)
+//@ macro sdsR4 = m != nil && m + 8 * 65536 <= $brk && (forall b Int :: {slotp(m, b)} 0 <= b && b <= 65535 && slotp(m, b) != 0 ==> slotp(m, b) + 24 <= $brk && sel(heap("*[]mapStructDescItem"), slotp(m, b)).ptr + 16 * slotn(m, b) <= $brk)
+//@ func (m *mapStructDesc) Get(abiType uintptr) (sd *structDesc)
+//@   requires c07_r1: $(sdsR1)
+//@   requires c07_r2: $(sdsR2)
+//@   requires c07_r4: $(sdsR4)
+//@   modifies nothing
+//@   ensures c07_view: sd == $sds[abiType]
+//@   loop 0 invariant forall j Int :: {itAbi(m, abiType % 65536, j)} 0 <= j && j <= rangeindex ==> itAbi(m, abiType % 65536, j) != abiType
+//@ func (m *mapStructDesc) Set(abiType uintptr, sd *structDesc)
+//@   opt mathint
+//@   requires c07_r1: $(sdsR1)
+//@   requires c07_r2: $(sdsR2)
+//@   requires c07_r3: $(sdsR3)
+//@   requires c07_r4: $(sdsR4)
+//@   modifies $sds, $sdsidx, $brk, sel("P.aptr", ix(m, abiType % 65536, 8))
+//@   after Store#0 ghost $sdsidx = store($sdsidx, abiType, i)
+//@   after Store#1 ghost $sdsidx = store($sdsidx, abiType, len(old))
+//@   exit ghost $sds = store($sds, abiType, sd)
+//@   ensures c07_r1: $(sdsR1)
+//@   ensures c07_r2: $(sdsR2)
+//@   ensures c07_r3: $(sdsR3)
+//@   ensures c07_r4: $(sdsR4)
+//@   ensures c07_view: $sds == store(old($sds), abiType, sd)
+//@   ensures old($brk) <= $brk
+//@   loop 0 invariant len(items) == len(old) && cap(items) == len(old) + 1 && old($brk) <= items.ptr && items.ptr + 16 * cap(items) <= $brk && old($brk) <= $brk
+//@   loop 0 invariant forall j int :: {items[j]} 0 <= j && j < len(old) ==> items[j].abiType == old[j].abiType && items[j].sd == old[j].sd
+//@   loop 0 invariant forall j int :: {items[j]} 0 <= j && j <= rangeindex ==> items[j].abiType != abiType
+//@ macro sdsR1g = forall b Int, i Int :: {itAbi(sds, b, i)} 0 <= b && b <= 65535 && slotp(sds, b) != 0 && 0 <= i && i < slotn(sds, b) ==> itAbi(sds, b, i) % 65536 == b && $sds[itAbi(sds, b, i)] == itSd(sds, b, i)
+//@ macro sdsR2g = forall k Int :: {$sds[k]} 0 <= k && $sds[k] != 0 ==> slotp(sds, k % 65536) != 0 && 0 <= $sdsidx[k] && $sdsidx[k] < slotn(sds, k % 65536) && itAbi(sds, k % 65536, $sdsidx[k]) == k
+//@ macro sdsR3g = forall b Int, i Int, j Int :: {itAbi(sds, b, i), itAbi(sds, b, j)} 0 <= b && b <= 65535 && slotp(sds, b) != 0 && 0 <= i && i < j && j < slotn(sds, b) ==> itAbi(sds, b, i) != itAbi(sds, b, j)
+//@ macro sdsR4g = sds != nil && sds + 8 * 65536 <= $brk && (forall b Int :: {slotp(sds, b)} 0 <= b && b <= 65535 && slotp(sds, b) != 0 ==> slotp(sds, b) + 24 <= $brk && sel(heap("*[]mapStructDescItem"), slotp(sds, b)).ptr + 16 * slotn(sds, b) <= $brk)
+
+//@ macro sdsinv = (forall b Int, i Int :: {itAbi(sds, b, i)} 0 <= b && b <= 65535 && slotp(sds, b) != 0 && 0 <= i && i < slotn(sds, b) ==> itAbi(sds, b, i) % 65536 == b && $sds[itAbi(sds, b, i)] == itSd(sds, b, i)) && (forall k Int :: {$sds[k]} 0 <= k && $sds[k] != 0 ==> slotp(sds, k % 65536) != 0 && 0 <= $sdsidx[k] && $sdsidx[k] < slotn(sds, k % 65536) && itAbi(sds, k % 65536, $sdsidx[k]) == k) && (forall b Int, i Int, j Int :: {itAbi(sds, b, i), itAbi(sds, b, j)} 0 <= b && b <= 65535 && slotp(sds, b) != 0 && 0 <= i && i < j && j < slotn(sds, b) ==> itAbi(sds, b, i) != itAbi(sds, b, j)) && (sds != nil && sds + 8 * 65536 <= $brk && (forall b Int :: {slotp(sds, b)} 0 <= b && b <= 65535 && slotp(sds, b) != 0 ==> slotp(sds, b) + 24 <= $brk && sel(heap("*[]mapStructDescItem"), slotp(sds, b)).ptr + 16 * slotn(sds, b) <= $brk)) && $sds[0] == 0 && (forall k Int :: {$sds[k]} $sds[k] != 0 ==> goodSD($sds[k], structT(typeOfAbi(k))) && structish(typeOfAbi(k)))
 //@ macro sdsstable = forall k Int :: {$sds[k]} old($sds[k]) != 0 ==> $sds[k] == old($sds[k])
 
 // prefetchStructDescCache maps a struct type to its descriptor as soon as the descriptor exists,
@@ -667,7 +708,7 @@ package reflect
 //@   requires c07_sds: $(sdsinv)
 //@   requires c07_inv: $(pfinv)
 //@   requires c07_idle: $(noinprog)
-//@   modifies $maps, $complete, $inprog, "H.tType.Sd", $sds
+//@   modifies $maps, $complete, $inprog, "H.tType.Sd", $sds, $sdsidx, "P.aptr"
 //@   ensures c07_sds: $(sdsinv)
 //@   ensures c07_inv: $(pfinv)
 //@   ensures c07_idle: $(noinprog)
@@ -681,7 +722,7 @@ package reflect
 //@   requires c07_sds: $(sdsinv)
 //@   requires c07_inv: $(pfinv)
 //@   requires c07_idle: $(noinprog)
-//@   modifies $maps, $complete, $inprog, "H.tType.Sd", $sds
+//@   modifies $maps, $complete, $inprog, "H.tType.Sd", $sds, $sdsidx, "P.aptr"
 //@   ensures c07_sds: $(sdsinv)
 //@   ensures c07_inv: $(pfinv)
 //@   ensures c07_idle: $(noinprog)
@@ -705,7 +746,7 @@ package reflect
 //@   requires len(b) <= MAXIN && b.ptr + len(b) <= $brk && (len(b) > 0 ==> b.ptr >= 65536)
 //@   requires c16_disjoint: b.ptr + len(b) <= anyPtr(v) || anyPtr(v) + anySize(v) <= b.ptr
 //@   ensures c16_input: forall a Int :: {M[a]} b.ptr <= a && a < b.ptr + len(b) ==> M[a] == old(M[a])
-//@   modifies M, $brk, $initp, $maps, $complete, $inprog, "H.tType.Sd", $sds
+//@   modifies M, $brk, $initp, $maps, $complete, $inprog, "H.tType.Sd", $sds, $sdsidx, "P.aptr"
 //@   call Decode ghost lvl = 1
 //@   call Decode ghost nested = false
 //@   entry ghost $sp = 0
@@ -727,7 +768,7 @@ package reflect
 //@   requires c07_caches: $(cachereq)
 //@   ensures c07_caches: $(cachereq)
 //@   ensures c07_stable: $(sdsstable)
-//@   modifies $brk, $encp, $maps, $complete, $inprog, "H.tType.Sd", $sds
+//@   modifies $brk, $encp, $maps, $complete, $inprog, "H.tType.Sd", $sds, $sdsidx, "P.aptr"
 //@   after appendStruct ghost $encp = p
 //@   ensures c13_arg: rvKind(rvOf(v)) == reflect.Invalid || !structish(rvType(rvOf(v))) ==> err != nil
 //@   ensures c02_top: err == nil ==> r == WS(sdFor(rvOf(v)), M, $encp, b)
@@ -743,7 +784,7 @@ package reflect
 //@   requires c07_caches: $(cachereq)
 //@   ensures c07_caches: $(cachereq)
 //@   ensures c07_stable: $(sdsstable)
-//@   modifies $brk, $encp, $szerr, $maps, $complete, $inprog, "H.tType.Sd", $sds
+//@   modifies $brk, $encp, $szerr, $maps, $complete, $inprog, "H.tType.Sd", $sds, $sdsidx, "P.aptr"
 //@   entry ghost $szerr = 0
 //@   after createStructDesc ghost $szerr = res_err
 //@   after EncodedSize ghost $encp = p
@@ -1337,3 +1378,4 @@ package reflect
 //@   loop 3 invariant var: forall j int :: {d.varLenFields[j]} 0 <= j && j < len(d.varLenFields) ==> 0 <= d.varLenFields[j] && d.varLenFields[j] <= rangeindex
 //@   loop 3 invariant len(d.varLenFields) <= rangeindex + 1 && len(d.requiredFieldIDs) <= rangeindex + 1 && cap(d.varLenFields) == len(ff) && cap(d.requiredFieldIDs) == len(ff)
 //@   loop 3 invariant 0 <= d.fixedLenFieldSize && d.fixedLenFieldSize <= 11 * (rangeindex + 1)
+
